@@ -15,6 +15,7 @@ pub enum Action {
     KillExit,       // let the call complete, then SIGKILL
     ShortKill(u64), // shorten to k bytes, let that complete, then SIGKILL (torn write)
     ShortThenErr(u64, i32), // first call short, the retry of the remainder fails with errno
+    ErrnoPersist(i32), // this call and every later call of the same kind by this client fail (the disk stays full / broken)
 }
 
 impl Action {
@@ -27,6 +28,7 @@ impl Action {
             Action::KillExit => "kill@exit".into(),
             Action::ShortKill(k) => format!("torn({k})+kill"),
             Action::ShortThenErr(k, e) => format!("short({k})+{}", errno_name(*e)),
+            Action::ErrnoPersist(e) => format!("errno({})-from-here-on", errno_name(*e)),
         }
     }
     pub fn to_json(&self) -> serde_json::Value {
@@ -39,6 +41,7 @@ impl Action {
             Action::KillExit => json!({"a":"kill_exit"}),
             Action::ShortKill(k) => json!({"a":"short_kill","k":k}),
             Action::ShortThenErr(k, e) => json!({"a":"short_then_err","k":k,"e":e}),
+            Action::ErrnoPersist(e) => json!({"a":"errno_persist","e":e}),
         }
     }
     pub fn from_json(v: &serde_json::Value) -> Action {
@@ -51,6 +54,7 @@ impl Action {
             "kill_exit" => Action::KillExit,
             "short_kill" => Action::ShortKill(k),
             "short_then_err" => Action::ShortThenErr(k, e),
+            "errno_persist" => Action::ErrnoPersist(e),
             _ => Action::Exec,
         }
     }
@@ -117,6 +121,7 @@ pub struct Tracer {
     pub quiesce_timeouts: u64,
     pub held_polls: u64,
     pub tmpnames: BTreeMap<String, usize>, // random temp-file names in order of first appearance
+    pub persist: BTreeMap<(usize, i64), i32>, // (client, syscall nr) -> errno for every further call of that kind
 }
 
 impl Tracer {
@@ -140,6 +145,7 @@ impl Tracer {
             quiesce_timeouts: 0,
             held_polls: 0,
             tmpnames: BTreeMap::new(),
+            persist: BTreeMap::new(),
         }
     }
 
@@ -429,6 +435,15 @@ impl Tracer {
         self.step += 1;
         let cur_op = self.clients[c].cur_op;
         let mut eff = action.clone();
+        // a persistent fault on this kind of call overrides
+        if let Action::ErrnoPersist(e) = eff {
+            self.persist.insert((c, sys.nr), e);
+            eff = Action::Errno(e);
+        } else if eff == Action::Exec {
+            if let Some(e) = self.persist.get(&(c, sys.nr)) {
+                eff = Action::Errno(*e);
+            }
+        }
         // a scheduled "retry fails" on this fd overrides
         if sys.data_write {
             if let Some(fd) = sys.fd {
@@ -453,7 +468,7 @@ impl Tracer {
                 self.kill_client(c);
                 return;
             }
-            Action::Errno(e) => {
+            Action::Errno(e) | Action::ErrnoPersist(e) => {
                 if let Some(mut regs) = getregs(tid) {
                     regs.orig_rax = u64::MAX; // skip the call
                     setregs(tid, &regs);
